@@ -56,7 +56,8 @@ def main():
         cmd3 = "cargo nextest run --workspace --no-fail-fast --offline --test-threads 8"
         rc3, out3 = sh(cmd3, timeout=7200)
         m3 = re.search(r"Summary \[.*?\] (.*)", out3)
-        meta["ran"].append({"cmd": cmd3 + "   # repository suite, with the change", "rc": rc3, "result": m3.group(1) if m3 else out3[-300:]})
+        failed = sorted(set(re.findall(r"^\s*(?:FAIL|TIMEOUT|SIGABRT|SIGSEGV)\s+\[[^\]]*\]\s+(.*)$", out3, re.M)))
+        meta["ran"].append({"cmd": cmd3 + "   # repository suite, with the change", "rc": rc3, "result": m3.group(1) if m3 else out3[-300:], "failed_tests": failed[:10]})
         ok = rc1 == 0 and m1 and int(m1.group(2)) >= 1 and rc2 != 0 and rc3 == 0
         meta["confirmed"] = bool(ok)
         meta["confirm_wall_s"] = round(time.time() - t0)
